@@ -1128,7 +1128,7 @@ void mmd_export_token_opendocument(DString * out, const char * source, token * t
 			print_const("</table:table>\n");
 
 			// Are we followed by a caption?
-			if (table_has_caption(t)) {
+			if (table_has_caption(t, source)) {
 				temp_token = t->next->child;
 
 				if (temp_token->next &&
